@@ -47,7 +47,16 @@ def run(tier, seed):
         ('match detached 2', lambda: [sv.match(':nth-child(1)', detached2), sv.match('dd:only-of-type', detached2)]),
         ('closest/filter', lambda: [str(sv.closest('ul', soup.li))[:20], ids(sv.filter('.a', soup.ul))]),
         ('escape+compile', lambda: ir(sv.compile('#' + sv.escape('1a b')))),
+        # the same pattern with different namespace maps / custom maps in different threads
+        ('compile ns-a', lambda: [ir(c_ := sv.compile('p|i, [p|k]', namespaces={'p': 'urn:a'})), dict(c_.namespaces)]),
+        ('compile ns-b', lambda: [ir(c_ := sv.compile('p|i, [p|k]', namespaces={'p': 'urn:b'})), dict(c_.namespaces)]),
+        ('select ns-a', lambda: ids(sv.select('p|i', xdoc, namespaces={'p': 'urn:a'}))),
+        ('select ns-b', lambda: ids(sv.select('p|i', xdoc, namespaces={'p': 'urn:b'}))),
+        ('select ns-default', lambda: ids(sv.select('i', xdoc, namespaces={'': 'urn:b', 'q': 'urn:a'}))),
+        ('compile custom-x', lambda: ir(sv.compile(':--t', custom={':--t': ':--h.t', ':--h': 'h1'}))),
+        ('compile custom-y', lambda: ir(sv.compile(':--t', custom={':--t': ':--h.t', ':--h': 'h2, h3'}))),
     ]
+    xdoc = BeautifulSoup('<?xml version="1.0"?><r xmlns:a="urn:a" xmlns:b="urn:b"><a:i id="1"/><b:i id="2"/><a:i id="3"/><i/></r>', 'xml')
     serial = {}
     for name, op in OPS:
         sv.purge()
@@ -55,7 +64,8 @@ def run(tier, seed):
     pairs = [(a, b) for a in OPS for b in OPS]
     if tier == 'quick':
         pairs = [(a, b) for a, b in pairs if a[0].startswith('compile') or a[0].startswith('match')]
-        pairs = rnd.sample(pairs, 40)
+        forced = [(a, b) for a, b in pairs if a is not b and (('ns-' in a[0] and 'ns-' in b[0]) or ('custom-' in a[0] and 'custom-' in b[0]))]
+        pairs = rnd.sample(pairs, 30) + rnd.sample(forced, min(12, len(forced)))
     nk = 25 if tier == 'quick' else 400
     total = 0
     for (na, opa), (nb, opb) in pairs:
